@@ -38,16 +38,21 @@ package compress
 
 //@ -- Frame layout written by the compressor (C02, C05):
 //@ --   [0,16) CityHash128 of [16, end)   [16] method code   [17,21) le32(|z|+9)   [21,25) le32(|payload|)   [25, end) z
+//@ -- a Writer holds the encoder of its own method (NewWriter creates exactly that one); the frame's
+//@ -- size fields are 32 bit: the layout clauses are stated for payloads below 4 GiB (larger blocks
+//@ -- wrap the size fields; not covered)
+//@ valid (w *Writer): w != nil ==> w.method <= 3 && (w.method == LZ4 ==> w.lz4 != nil) && (w.method == LZ4HC ==> w.lz4hc != nil) && (w.method == ZSTD ==> w.zstd != nil)
+//@ contract NewWriter(l, m) (w) props(C02,C05)
+//@   requires m <= 3
+//@   maypanic
+//@   ensures w != nil && w.method == m && (m == LZ4 ==> w.lz4 != nil) && (m == LZ4HC ==> w.lz4hc != nil) && (m == ZSTD ==> w.zstd != nil) {holds-the-encoder-of-its-method}
 //@ contract (w *Writer) Compress(buf) (err) props(C02,C05)
-//@   requires w != nil && w.method <= 3 && len(buf) < 4294967296
-//@   requires w.method == LZ4 ==> w.lz4 != nil
-//@   requires w.method == LZ4HC ==> w.lz4hc != nil
-//@   requires w.method == ZSTD ==> w.zstd != nil
+//@   requires w != nil
 //@   modifies w.Data
 //@   ensures err == nil ==> len(w.Data) >= headerSize {frame-min}
 //@   ensures err == nil ==> w.Data[16] == ite(w.method == None, 2, ite(w.method == ZSTD, 144, 130)) {frame-method}
-//@   ensures err == nil ==> unle32(w.Data[17], w.Data[18], w.Data[19], w.Data[20]) == len(w.Data) - 16 {frame-rawsize}
-//@   ensures err == nil ==> unle32(w.Data[21], w.Data[22], w.Data[23], w.Data[24]) == len(buf) {frame-datasize}
+//@   ensures err == nil && len(w.Data) - 16 < 4294967296 ==> unle32(w.Data[17], w.Data[18], w.Data[19], w.Data[20]) == len(w.Data) - 16 {frame-rawsize}
+//@   ensures err == nil && len(buf) < 4294967296 ==> unle32(w.Data[21], w.Data[22], w.Data[23], w.Data[24]) == len(buf) {frame-datasize}
 //@   ensures err == nil ==> unle64(w.Data[0], w.Data[1], w.Data[2], w.Data[3], w.Data[4], w.Data[5], w.Data[6], w.Data[7]) == ch128lo(arrayof(w.Data), offset(w.Data) + 16, len(w.Data) - 16) {frame-cksum-lo}
 //@   ensures err == nil ==> unle64(w.Data[8], w.Data[9], w.Data[10], w.Data[11], w.Data[12], w.Data[13], w.Data[14], w.Data[15]) == ch128hi(arrayof(w.Data), offset(w.Data) + 16, len(w.Data) - 16) {frame-cksum-hi}
 //@   ensures err == nil && w.method == None ==> len(w.Data) == headerSize + len(buf) && forall k in 0..len(buf) :: w.Data[headerSize + k] == buf[k] {frame-none-payload}
